@@ -450,6 +450,9 @@ def shrink_triple(case):
 def triple_distribution(cases, results):
     d = {"per_type": {}, "cmp_ab": {}, "changed_ab": {"true": 0, "false": 0}, "src": {}, "panics": 0}
     for c, r in zip(cases, results):
+        if c.get("k") != "triple":
+            d["src"][c.get("k")] = d["src"].get(c.get("k"), 0) + 1
+            continue
         d["per_type"][c["ty"]] = d["per_type"].get(c["ty"], 0) + 1
         d["src"][c.get("src", "?")] = d["src"].get(c.get("src", "?"), 0) + 1
         if "ab" not in r:
